@@ -86,6 +86,7 @@ type writeRec struct {
 	base  T
 	sort  Sort
 	whole bool // written at unknown objects (callee with a whole-field footprint)
+	except []hk // for key "*": types whose pre-existing objects are not written
 }
 
 // ---------------------------------------------------------------------------
